@@ -22,8 +22,10 @@ import (
 	"io"
 	"math/rand"
 	"net"
+	"runtime"
 	"strings"
 	"sync"
+	"sync/atomic"
 	"time"
 
 	kafka "github.com/segmentio/kafka-go"
@@ -86,6 +88,12 @@ type wireBroker struct {
 	log      []uint64 // appended under the history lock and mu (lock order: history, then mu)
 	anom     string
 
+	host     string       // what the metadata answer advertises for broker 1
+	port     int32        //
+	lis      net.Listener // census scenarios on loopback TCP
+	open     int          // connections whose serving goroutine has not yet seen the client's close
+	reqTimes []time.Time  // arrival time of every decoded request
+
 	stalledConn *wireConn     // client end of the stalled connection
 	stalled     chan struct{} // closed when the stall is reached
 	release     chan struct{} // closed to let the stalled connection go on
@@ -100,6 +108,8 @@ func newWireBroker(hist *fakert.History, sp *wireSpec) *wireBroker {
 	return &wireBroker{
 		hist:      hist,
 		sp:        sp,
+		host:      "fake",
+		port:      9092,
 		stalled:   make(chan struct{}),
 		release:   make(chan struct{}),
 		staleDone: make(chan struct{}),
@@ -127,10 +137,62 @@ func (b *wireBroker) dial(ctx context.Context, network, addr string) (net.Conn, 
 	wc := &wireConn{Conn: cl, closed: make(chan struct{})}
 	idx := b.nconn
 	b.nconn++
+	b.open++
 	b.ends = append(b.ends, cl, sv)
 	b.wg.Add(1)
 	go b.serve(idx, sv, wc)
 	return wc, nil
+}
+
+// listen makes the broker reachable on a loopback TCP port (for writers whose dial function
+// cannot be replaced); the metadata answer advertises that address.
+func (b *wireBroker) listen() (string, error) {
+	lis, err := net.Listen("tcp", "127.0.0.1:0")
+	if err != nil {
+		return "", err
+	}
+	ta := lis.Addr().(*net.TCPAddr)
+	b.mu.Lock()
+	b.lis = lis
+	b.host, b.port = "127.0.0.1", int32(ta.Port)
+	b.mu.Unlock()
+	b.wg.Add(1)
+	go func() {
+		defer b.wg.Done()
+		for {
+			c, err := lis.Accept()
+			if err != nil {
+				return
+			}
+			b.mu.Lock()
+			if b.down {
+				b.mu.Unlock()
+				c.Close()
+				return
+			}
+			idx := b.nconn
+			b.nconn++
+			b.open++
+			b.ends = append(b.ends, c)
+			b.wg.Add(1)
+			b.mu.Unlock()
+			go b.serve(idx, c, nil)
+		}
+	}()
+	return lis.Addr().String(), nil
+}
+
+// census returns the number of connections the client has not closed yet and the number of
+// requests that arrived after t.
+func (b *wireBroker) census(t time.Time) (open, late int) {
+	b.mu.Lock()
+	defer b.mu.Unlock()
+	for _, rt := range b.reqTimes {
+		if rt.After(t) {
+			late++
+		}
+	}
+	return b.open, late
 }
 
 // shutdown closes every pipe end, which unblocks every read and write on them.
@@ -140,7 +202,11 @@ func (b *wireBroker) shutdown() {
 	b.down = true
 	ends := b.ends
 	b.ends = nil
+	lis := b.lis
 	b.mu.Unlock()
+	if lis != nil {
+		lis.Close()
+	}
 	for _, c := range ends {
 		c.Close()
 	}
@@ -173,6 +239,11 @@ func (b *wireBroker) stallBytes(size int) int {
 func (b *wireBroker) serve(idx int, c net.Conn, client *wireConn) {
 	defer b.wg.Done()
 	defer c.Close()
+	defer func() {
+		b.mu.Lock()
+		b.open--
+		b.mu.Unlock()
+	}()
 	defer func() {
 		if r := recover(); r != nil {
 			b.anomaly("broker-panic:" + fmt.Sprint(r))
@@ -229,7 +300,11 @@ func (b *wireBroker) serve(idx int, c net.Conn, client *wireConn) {
 			}
 			return
 		}
-		if _, isProduce := msg.(*produce.Request); isProduce != produceClass {
+		b.mu.Lock()
+		b.reqTimes = append(b.reqTimes, time.Now())
+		host, port := b.host, b.port
+		b.mu.Unlock()
+		if _, isProduce := msg.(*produce.Request); isProduce != produceClass && b.sp.stallAt > 0 {
 			b.anomaly(fmt.Sprintf("conn%d-frame%d-api%d", idx, nframe, msg.ApiKey()))
 		}
 		var res protocol.Message
@@ -240,7 +315,7 @@ func (b *wireBroker) serve(idx int, c net.Conn, client *wireConn) {
 			res = &metadata.Response{
 				ClusterID:    "fake",
 				ControllerID: 1,
-				Brokers:      []metadata.ResponseBroker{{NodeID: 1, Host: "fake", Port: 9092}},
+				Brokers:      []metadata.ResponseBroker{{NodeID: 1, Host: host, Port: port}},
 				Topics: []metadata.ResponseTopic{{
 					Name: wireTopic,
 					Partitions: []metadata.ResponsePartition{{
@@ -427,26 +502,7 @@ func runWire(sp *wireSpec) (ln line) {
 
 	// one caller: successive synchronous calls, each under the watchdog
 	for cnum, msgs := range sp.calls {
-		cnum, msgs := cnum, append([]kafka.Message(nil), msgs...)
-		l := make([]string, len(msgs))
-		for i, m := range msgs {
-			l[i] = fmt.Sprintf("%x.-.%s.0", msgID(m), hx(int(kafka.VerifTotalSize(m))))
-		}
-		hist.Record(fmt.Sprintf("C%s:0:-:%s", hx(cnum), strings.Join(l, ";")))
-		done := make(chan struct{})
-		go func() {
-			defer close(done)
-			defer func() {
-				if r := recover(); r != nil {
-					fail("PANIC:" + sanitize(fmt.Sprint(r)))
-				}
-			}()
-			err := w.WriteMessages(context.Background(), msgs...)
-			res := classifyResult(err, msgs)
-			hist.Do(func(int) string { return fmt.Sprintf("R%s:%s", hx(cnum), res) })
-		}()
-		if !wireWait(done, wireWatchdog) {
-			fail("HANG:call")
+		if !wireCall(hist, w, cnum, msgs, fail) {
 			return finish()
 		}
 		resMu.Lock()
@@ -495,6 +551,320 @@ func runWire(sp *wireSpec) (ln line) {
 		fail("HANG:close")
 	}
 	return finish()
+}
+
+// ---------------------------------------------------------------------------
+// census: what a closed writer leaves behind
+
+const (
+	censusWatchdog = 2 * time.Second
+	censusGrace    = 300 * time.Millisecond // requests later than this after Y are late
+	censusObserve  = 400 * time.Millisecond // the broker is observed at least this long after Y
+)
+
+type censusSpec struct {
+	newWriter bool // kafka.NewWriter (the writer owns its transport) or the literal control
+	async     bool
+	batchSize int
+	rebalance time.Duration // WriterConfig.RebalanceInterval = the MetadataTTL of NewWriter's transport, 0 = default
+	calls     [][]kafka.Message
+}
+
+// transportGoroutines counts the goroutines of kafka-go's transport.go: the pools' discover loops
+// and the connections' run loops, in the whole process.
+func transportGoroutines() int {
+	buf := make([]byte, 1<<18)
+	for {
+		n := runtime.Stack(buf, true)
+		if n < len(buf) {
+			buf = buf[:n]
+			break
+		}
+		buf = make([]byte, 2*len(buf))
+	}
+	n := 0
+	for _, g := range strings.Split(string(buf), "\n\n") {
+		if strings.Contains(g, "kafka-go.(*connPool).discover(") || strings.Contains(g, "kafka-go.(*conn).run(") {
+			n++
+		}
+	}
+	return n
+}
+
+// settleGoroutines waits (bounded) until the transport goroutine count is down to want.
+func settleGoroutines(want int, d time.Duration) int {
+	end := time.Now().Add(d)
+	for {
+		n := transportGoroutines()
+		if n <= want || !time.Now().Before(end) {
+			return n
+		}
+		time.Sleep(5 * time.Millisecond)
+	}
+}
+
+// runCensus runs the sequential part of a census scenario (writer creation to goroutine census)
+// and returns the function that completes the line: when the census is clean so far that function
+// only keeps observing the scenario's own broker, so it may run while the next scenario starts.
+func runCensus(sp *censusSpec) (final func() line, background bool) {
+	feat := map[string]bool{"wire": true, "census": true, fmt.Sprintf("calls=%d", len(sp.calls)): true, fmt.Sprintf("batchsize=%d", sp.batchSize): true}
+	if sp.newWriter {
+		feat["newwriter"] = true
+	} else {
+		feat["literal-control"] = true
+	}
+	if sp.async {
+		feat["async"] = true
+	} else {
+		feat["sync"] = true
+	}
+	if sp.rebalance > 0 {
+		feat["short-metadata-ttl"] = true
+	}
+	const maxAttempts = 3
+	cfg := fmt.Sprintf("cfg=%s,%s,%s,%s,0,%s,0", hx(sp.batchSize), hx(1048576), hx(maxAttempts), kvfmt.Bool(sp.async), hx(fakert.CodeDeadline))
+
+	hist := fakert.NewHistory()
+	b := newWireBroker(hist, &wireSpec{batchSize: sp.batchSize})
+
+	var resMu sync.Mutex
+	result := ""
+	fail := func(r string) {
+		resMu.Lock()
+		if result == "" {
+			result = r
+		}
+		resMu.Unlock()
+	}
+	failed := func() bool {
+		resMu.Lock()
+		defer resMu.Unlock()
+		return result != ""
+	}
+	var w *kafka.Writer
+	var dialFuncUsed atomic.Bool
+	base := 0
+	// finish closes the scenario down: whatever the writer left behind is torn down by force so
+	// that it cannot disturb what runs next.
+	finish := func(leak string) line {
+		events := hist.Freeze()
+		if leak != "" || failed() {
+			if w != nil {
+				if tr, ok := w.Transport.(*kafka.Transport); ok && tr != nil {
+					tr.CloseIdleConnections()
+				}
+			}
+		}
+		b.shutdown()
+		wgDone := make(chan struct{})
+		go func() { b.wg.Wait(); close(wgDone) }()
+		wireWait(wgDone, wireWatchdog)
+		if leak != "" || failed() {
+			settleGoroutines(base, time.Second)
+		}
+		b.mu.Lock()
+		events = append(events, "L0.0:"+fakert.IDs(b.log))
+		anom := b.anom
+		b.mu.Unlock()
+		if dialFuncUsed.Load() {
+			feat["dialfunc-used"] = true
+		}
+		resMu.Lock()
+		res := result
+		resMu.Unlock()
+		if res == "" && anom != "" {
+			res = "PANIC:wire-broker:" + sanitize(anom)
+		}
+		if res == "" {
+			res = leak
+		}
+		if res == "" {
+			res = "ok"
+		}
+		return line{"wire", cfg + " " + strings.Join(events, " "), res, kvfmt.Set(feat)}
+	}
+	now := func(l line) (func() line, bool) { return func() line { return l }, false }
+	var ln line
+	panicked := true
+	defer func() {
+		if panicked {
+			fail("PANIC:" + sanitize(fmt.Sprint(recover())))
+			ln = finish("")
+			final, background = func() line { return ln }, false
+		}
+	}()
+
+	completion := func(msgs []kafka.Message, err error) {
+		o := "-"
+		if err != nil {
+			o = hx(fakert.Classify(err))
+		}
+		ids := msgIDs(msgs)
+		hist.Do(func(int) string { return fmt.Sprintf("K%s:%s", o, ids) })
+	}
+	balancer := kafka.BalancerFunc(func(kafka.Message, ...int) int { return 0 })
+
+	base = transportGoroutines()
+	var literalTr *kafka.Transport
+	if sp.newWriter {
+		// NewWriter builds its transport's dial function from the net.Dialer fields of
+		// config.Dialer and ignores Dialer.DialFunc, so the broker listens on loopback TCP;
+		// DialFunc is set all the same (to a plain TCP dial) and its use is tagged.
+		addr, err := b.listen()
+		if err != nil {
+			panic("wire: listen: " + err.Error())
+		}
+		feat["tcp-loopback"] = true
+		dialFunc := func(ctx context.Context, network, address string) (net.Conn, error) {
+			dialFuncUsed.Store(true)
+			return (&net.Dialer{}).DialContext(ctx, network, address)
+		}
+		w = kafka.NewWriter(kafka.WriterConfig{
+			Brokers:           []string{addr},
+			Topic:             wireTopic,
+			Dialer:            &kafka.Dialer{DialFunc: dialFunc, Timeout: time.Second},
+			Balancer:          balancer,
+			BatchSize:         sp.batchSize,
+			BatchTimeout:      10 * time.Millisecond,
+			WriteTimeout:      time.Second,
+			ReadTimeout:       time.Second,
+			MaxAttempts:       maxAttempts,
+			RequiredAcks:      -1,
+			Async:             sp.async,
+			RebalanceInterval: sp.rebalance,
+		})
+		w.Completion = completion
+	} else {
+		literalTr = &kafka.Transport{Dial: b.dial, MetadataTTL: time.Hour}
+		w = &kafka.Writer{
+			Addr:         kafka.TCP("fake:9092"),
+			Topic:        wireTopic,
+			Transport:    literalTr,
+			BatchSize:    sp.batchSize,
+			BatchTimeout: 10 * time.Millisecond,
+			WriteTimeout: time.Second,
+			ReadTimeout:  time.Second,
+			MaxAttempts:  maxAttempts,
+			RequiredAcks: kafka.RequireAll,
+			Async:        sp.async,
+			Balancer:     balancer,
+			Completion:   completion,
+		}
+	}
+
+	for cnum, msgs := range sp.calls {
+		if !wireCall(hist, w, cnum, msgs, fail) || failed() {
+			panicked = false
+			return now(finish(""))
+		}
+	}
+
+	hist.Record("X")
+	var yMu sync.Mutex
+	var yTime time.Time
+	closed := make(chan struct{})
+	go func() {
+		defer close(closed)
+		defer func() {
+			if r := recover(); r != nil {
+				fail("PANIC:" + sanitize(fmt.Sprint(r)))
+			}
+		}()
+		w.Close()
+		hist.Record("Y")
+		yMu.Lock()
+		yTime = time.Now()
+		yMu.Unlock()
+		if literalTr != nil {
+			// the transport of a literal Writer belongs to the caller
+			literalTr.CloseIdleConnections()
+		}
+	}()
+	if !wireWait(closed, wireWatchdog) {
+		fail("HANG:close")
+	}
+	if failed() {
+		panicked = false
+		return now(finish(""))
+	}
+	yMu.Lock()
+	y := yTime
+	yMu.Unlock()
+
+	// the census: poll until the broker has seen every connection closed and the transport
+	// goroutines are back to the count taken before the writer was created
+	verdict := func(open, late, extra int) string {
+		var parts []string
+		if open > 0 {
+			parts = append(parts, "conns-open="+hx(open))
+		}
+		if late > 0 {
+			parts = append(parts, "late-requests="+hx(late))
+		}
+		if extra > 0 {
+			parts = append(parts, "goroutines=+"+hx(extra))
+		}
+		if len(parts) == 0 {
+			return ""
+		}
+		return "LEAK:" + strings.Join(parts, ",")
+	}
+	end := y.Add(censusWatchdog)
+	open, late, extra := 0, 0, 0
+	for {
+		open, late = b.census(y.Add(censusGrace))
+		extra = transportGoroutines() - base
+		if (open == 0 && late == 0 && extra <= 0) || !time.Now().Before(end) {
+			break
+		}
+		time.Sleep(5 * time.Millisecond)
+	}
+	panicked = false
+	if v := verdict(open, late, extra); v != "" {
+		return now(finish(v))
+	}
+	// clean so far: the rest of the observation only concerns this scenario's broker
+	return func() (ln line) {
+		defer func() {
+			if r := recover(); r != nil {
+				fail("PANIC:" + sanitize(fmt.Sprint(r)))
+				ln = finish("")
+			}
+		}()
+		if d := time.Until(y.Add(censusObserve)); d > 0 {
+			time.Sleep(d)
+		}
+		open, late := b.census(y.Add(censusGrace))
+		return finish(verdict(open, late, 0))
+	}, true
+}
+
+// wireCall records the C event of one call, runs WriteMessages under the watchdog and records its
+// R event. It returns false when the watchdog tripped.
+func wireCall(hist *fakert.History, w *kafka.Writer, cnum int, msgs []kafka.Message, fail func(string)) bool {
+	msgs = append([]kafka.Message(nil), msgs...)
+	l := make([]string, len(msgs))
+	for i, m := range msgs {
+		l[i] = fmt.Sprintf("%x.-.%s.0", msgID(m), hx(int(kafka.VerifTotalSize(m))))
+	}
+	hist.Record(fmt.Sprintf("C%s:0:-:%s", hx(cnum), strings.Join(l, ";")))
+	done := make(chan struct{})
+	go func() {
+		defer close(done)
+		defer func() {
+			if r := recover(); r != nil {
+				fail("PANIC:" + sanitize(fmt.Sprint(r)))
+			}
+		}()
+		err := w.WriteMessages(context.Background(), msgs...)
+		res := classifyResult(err, msgs)
+		hist.Do(func(int) string { return fmt.Sprintf("R%s:%s", hx(cnum), res) })
+	}()
+	if !wireWait(done, wireWatchdog) {
+		fail("HANG:call")
+		return false
+	}
+	return true
 }
 
 func wireMsg(r *rand.Rand, id uint64) kafka.Message {
@@ -554,5 +924,60 @@ func wireLines(seed int64) []line {
 		}(i)
 	}
 	wg.Wait()
-	return lines
+
+	// census scenarios: one after the other (the goroutine census is process-wide), after every
+	// other wire scenario has finished and its transport's goroutines are gone
+	settleGoroutines(0, time.Second)
+	mkc := func(newWriter, async bool, batchSize, ncalls, perCall int, rebalance time.Duration) *censusSpec {
+		sp := &censusSpec{newWriter: newWriter, async: async, batchSize: batchSize, rebalance: rebalance}
+		id := uint64(1)
+		for c := 0; c < ncalls; c++ {
+			var msgs []kafka.Message
+			for i := 0; i < perCall; i++ {
+				msgs = append(msgs, wireMsg(r, id))
+				id++
+			}
+			sp.calls = append(sp.calls, msgs)
+		}
+		return sp
+	}
+	cspecs := []*censusSpec{
+		mkc(true, false, 1, 1, 1, 0),
+		mkc(true, false, 2, 2, 2, 0),
+		mkc(true, false, 1, 3, 1, 500*time.Millisecond),
+		mkc(true, true, 1, 2, 1, 0),
+		mkc(true, true, 2, 1, 1+r.Intn(2), 500*time.Millisecond),
+		mkc(false, false, 1, 2, 1, 0), // control: literal Writer, the harness closes its transport
+	}
+	clines := make([]line, len(cspecs))
+	var cwg sync.WaitGroup
+	for i := range cspecs {
+		var final func() line
+		background := false
+		func() {
+			defer func() {
+				if r := recover(); r != nil {
+					l := line{"wire", "cfg=?", "PANIC:" + sanitize(fmt.Sprint(r)), "census,harness-panic,wire"}
+					final, background = func() line { return l }, false
+				}
+			}()
+			final, background = runCensus(cspecs[i])
+		}()
+		if !background {
+			clines[i] = final()
+			continue
+		}
+		cwg.Add(1)
+		go func(i int, final func() line) {
+			defer cwg.Done()
+			defer func() {
+				if r := recover(); r != nil {
+					clines[i] = line{"wire", "cfg=?", "PANIC:" + sanitize(fmt.Sprint(r)), "census,harness-panic,wire"}
+				}
+			}()
+			clines[i] = final()
+		}(i, final)
+	}
+	cwg.Wait()
+	return append(lines, clines...)
 }
